@@ -95,6 +95,8 @@ class ExprMixin:
             if isinstance(v.ty, T.Opt):
                 raise Unsupported(f"cannot coerce {v.ty} to {ty}", node)
             return V(ty, ty.some(self.coerce(v, ty.elem, node).z))
+        if isinstance(ty, T.ObjT) and isinstance(v.ty, T.ObjT) and ty.root == v.ty.root:
+            return V(ty, v.z)   # up/down cast inside one class hierarchy (same sort)
         if ty is T.REAL and v.ty is T.INT:
             return V(T.REAL, z3.ToReal(v.z))
         if ty is T.INT and v.ty is T.BOOL:
@@ -702,7 +704,7 @@ class ExprMixin:
     def const_fn(self, cls, field, fty):
         key = ("constfn", cls, field)
         if key not in self._tycache:
-            self._tycache[key] = z3.Function(f"{cls}.{field}", T.ObjT(cls).sort(), fty.sort())
+            self._tycache[key] = z3.Function(f"{cls}.{field}", self.objT(cls).sort(), fty.sort())
         return self._tycache[key]
 
     def get_attr(self, base, attr, st, sink, n):
